@@ -20,7 +20,7 @@ def WsInv (s : WorkSteal.State τ) (e : Env) : Prop :=
   ∃ g, WorkSteal.Fresh s ∧ WorkSteal.KeysNodup s ∧ Bal (WorkSteal.view s) g ∧ NoAfter e.outs ∧ SentSync e
 
 theorem wsI_schedInv : SchedInv (wsI (τ := τ)) WsInv WorkSteal.OpLegal := by
-  refine ⟨?_, ?_, ?_⟩
+  refine SchedInv.ofStep ?_ ?_ ?_
   · intro s e op s' e' r ⟨g, hf, hk, hb, h1, h2⟩ hok hstep
     obtain ⟨hf', hk', hb'⟩ := WorkSteal.step_bal hf hk hb hok hstep
     obtain ⟨w1, w2⟩ := WorkSteal.step_wire hf hk h1 h2 hstep
